@@ -256,11 +256,12 @@ def _fail(fid, fn, detail):
 def _sig_job(args):
     name, sql, fix = args
     lnt = _linter()
-    fails, n_pairs, n_viol, rules, nvar = [], 0, 0, set(), 0
+    fails, n_pairs, n_viol, rules, nvar, n_reloc = [], 0, 0, set(), 0, 0
     try:
         vs, nvar = raw_violations(lnt, sql, fix)
     except Exception as e:        # a crash of the linter is not this property's business; record it as not evaluated
-        return {"name": name, "fix": fix, "error": repr(e)[:200], "fails": [], "pairs": 0, "violations": 0, "rules": [], "variants": 0, "dup_groups": 0}
+        return {"name": name, "fix": fix, "error": repr(e)[:200], "fails": [], "pairs": 0, "violations": 0, "rules": [], "variants": 0, "dup_groups": 0,
+                "relocated": 0}
     sigs = []
     for v in vs:
         n_viol += 1
@@ -277,6 +278,7 @@ def _sig_job(args):
         try:
             w = relocate_violation(v)
             ok = source_key(w) == source_key(v)      # the clone really is the same violation in source space
+            n_reloc += int(ok)
             if ok and w.source_signature() != s1:
                 fails.append(("R2-templated-space-independent", {"violation": repr(source_key(v))[:400], "signature": repr(s1)[:300],
                                                                    "signature_of_relocated_clone": repr(w.source_signature())[:300]}))
@@ -296,7 +298,7 @@ def _sig_job(args):
                                                                           "signature_2": repr(sigs[b])[:300]}))
                 break
     return {"name": name, "fix": fix, "fails": fails, "pairs": n_pairs, "violations": n_viol, "rules": sorted(rules), "variants": nvar,
-            "dup_groups": dup_groups}
+            "dup_groups": dup_groups, "relocated": n_reloc}
 
 
 def _e2e_job(args):
@@ -358,16 +360,19 @@ def signature_contract(tier, seed):
     viol = sum(r["violations"] for r in res)
     rules = sorted({c for r in res for c in r["rules"]})
     errors = [r for r in res if r.get("error")]
+    reloc = sum(r["relocated"] for r in res)
     for r in res[:3]:
         samples.append({k: r[k] for k in ("name", "fix", "violations", "pairs", "variants", "rules")})
-    if pairs == 0 or viol == 0:
-        failed.append(_fail("C33/source_signature/vacuous", SIG_FN, {"note": "no source-equal pair of violations was produced: the stand-in tests nothing"}))
+    if pairs == 0 or viol == 0 or reloc * 10 < viol * 9:
+        failed.append(_fail("C33/source_signature/vacuous", SIG_FN, {"note": "no source-equal pair of violations was produced, or fewer than 90% of the violations could be "
+                                                                              "cloned to another templated place: the stand-in tests (next to) nothing",
+                                                                      "violations": viol, "pairs": pairs, "relocated_clones": reloc}))
     return {"name": "source_signature contract on real violations (pre-deduplication)",
             "bound": f"{len(tpls)} generated Jinja templates x (lint, fix); loops of 0-3 iterations, if/else variants, loop around if/else, "
                      "files with fatal templating failures + malformed noqa comments",
             "rule": "R1 same in source space => equal signatures; R2 signature of a relocated clone (other templated slices, working "
                     "positions, identities) unchanged; R3 hashable + deterministic",
-            "evaluations": viol + pairs, "distinct_nontrivial": pairs, "violations_checked": viol, "source_equal_pairs": pairs,
+            "evaluations": viol + pairs, "distinct_nontrivial": pairs, "violations_checked": viol, "source_equal_pairs": pairs, "relocated_clones_checked": reloc,
             "files_with_repeated_violations": sum(1 for r in res if r["dup_groups"]), "rules_seen": rules,
             "linter_errors": len(errors), "samples": samples, "failed": failed}
 
